@@ -211,6 +211,8 @@ type wildClockT struct {
 var (
 	wildEpoch = time.Unix(1700000000, 0)
 	wildClock wildClockT
+	// wildSourceFails: the operating system's address / route dump fails for the long-lived plugins
+	wildSourceFails bool
 )
 
 func wildNow() time.Time {
@@ -259,11 +261,37 @@ func c13Run(t *testing.T, out *vfh.Out, bits int, k int, as []system.IP) {
 	if !ok || vfPrepareIfi != nil {
 		p = &Prefix{Auto: true, Prefix: stanza, OnLink: onLink, Autonomous: auto,
 			ValidLifetime: cfgValid, PreferredLifetime: cfgPref,
-			Addrs: func() ([]system.IP, error) { return c13Cur, nil }}
+			Addrs: func() ([]system.IP, error) {
+				if wildSourceFails {
+					return nil, errors.New("verif: the address dump failed")
+				}
+				return c13Cur, nil
+			}}
+		// as in the daemon, the plugin has been through Prepare (whatever that sets up besides the
+		// sources); the harness then puts its own sources in place of the operating system's
+		if vfPrepareIfi == nil {
+			addrs := p.Addrs
+			_ = p.Prepare(&net.Interface{Index: 1, Name: "lo"})
+			p.Addrs = addrs
+		}
 		if dep {
 			p.Deprecated, p.Epoch, p.TimeNow = true, wildEpoch, wildNow
 		}
 		c13Plugins[key] = p
+	}
+	// one time in six the plugin — which has expanded successfully before — is then asked again
+	// while its source fails: RA generation fails, nothing remembered is advertised in its place
+	if k%6 == 1 && vfPrepareIfi == nil {
+		defer func() {
+			wildSourceFails = true
+			defer func() { wildSourceFails = false }()
+			out.Try("wperr 64", func() string {
+				if err := p.Apply(&ndp.RouterAdvertisement{}); err != nil {
+					return "err"
+				}
+				return "ok"
+			})
+		}()
 	}
 	if vfPrepareIfi != nil {
 		p.Addrs = nil
@@ -433,8 +461,30 @@ func c14Run(t *testing.T, out *vfh.Out, static []netip.Addr, as []system.IP) {
 	rd, ok := c14Plugins[key]
 	if !ok || vfPrepareIfi != nil {
 		rd = &RDNSS{Auto: true, Lifetime: 9 * time.Second, Servers: static,
-			Addrs: func() ([]system.IP, error) { return c14Cur, nil }}
+			Addrs: func() ([]system.IP, error) {
+				if wildSourceFails {
+					return nil, errors.New("verif: the address dump failed")
+				}
+				return c14Cur, nil
+			}}
+		if vfPrepareIfi == nil {
+			addrs := rd.Addrs
+			_ = rd.Prepare(&net.Interface{Index: 1, Name: "lo"})
+			rd.Addrs = addrs
+		}
 		c14Plugins[key] = rd
+	}
+	if (len(as)+len(static))%6 == 1 && vfPrepareIfi == nil {
+		defer func() {
+			wildSourceFails = true
+			defer func() { wildSourceFails = false }()
+			out.Try("wderr", func() string {
+				if err := rd.Apply(&ndp.RouterAdvertisement{}); err != nil {
+					return "err"
+				}
+				return "ok"
+			})
+		}()
 	}
 	if vfPrepareIfi != nil {
 		rd.Addrs = nil
@@ -594,11 +644,33 @@ func c15Run(t *testing.T, out *vfh.Out, k int, rs []netip.Prefix) {
 	rt, ok := c15Plugins[k%9]
 	if !ok || vfPrepareIfi != nil {
 		rt = &Route{Auto: true, Prefix: mp("::/0"), Preference: pref, Lifetime: cfgLt,
-			Routes: func() ([]system.Route, error) { return c15Cur, nil }}
+			Routes: func() ([]system.Route, error) {
+				if wildSourceFails {
+					return nil, errors.New("verif: the route dump failed")
+				}
+				return c15Cur, nil
+			}}
+		if vfPrepareIfi == nil {
+			routes := rt.Routes
+			_ = rt.Prepare(&net.Interface{Index: 1, Name: "lo"})
+			rt.Routes = routes
+		}
 		if dep {
 			rt.Deprecated, rt.Epoch, rt.TimeNow = true, wildEpoch, wildNow
 		}
 		c15Plugins[k%9] = rt
+	}
+	if k%6 == 1 && vfPrepareIfi == nil {
+		defer func() {
+			wildSourceFails = true
+			defer func() { wildSourceFails = false }()
+			out.Try("wrerr", func() string {
+				if err := rt.Apply(&ndp.RouterAdvertisement{}); err != nil {
+					return "err"
+				}
+				return "ok"
+			})
+		}()
 	}
 	if vfPrepareIfi != nil {
 		rt.Routes = nil
